@@ -37,6 +37,8 @@ func H_C06_consts() {
 	A(CNeg == -9000000000, "CNeg")
 	A(CHex == 31, "CHex")
 	A(CByte == -7, "CByte")
+	A(CMax == 9223372036854775807 && CMin == -9223372036854775808 && CHexBig == 9223372036854775807, "i64 extremes (decimal and hex)")
+	A(CI32Min == -2147483648 && CI16Max == 32767 && CByteMin == -128, "extremes of the narrower integer types")
 	A(CDbl == 2.5, "CDbl")
 	A(CDblInt == 3.0, "CDblInt: an integer literal for a double")
 	A(CDblExp == 1000.0, "CDblExp")
